@@ -12,6 +12,8 @@ Driver for property C07: runs the client authenticator model on one scenario per
         events: N | R:<hex> | S:<hex> | C | A      (the text after `ERROR ` of a cookie failure is the
         name of the failure kind)
 
+  runp <n> <mechanism hex>*n <rest as run>          the same with an explicit preference list
+
   hs <unix 0|1> <accept ext 0|1> <accept cookie 0|1> <accept anon 0|1> <fdAgree 0|1> <guid hex-as-hex>
      <user hex> <dir> <rnd hex> <nfiles> (<ctx> <content>)* <cookieCtx hex> <cookieId hex> <cookie hex> <challenge hex>
      -> <transcript: C:<hex> / S:<hex> …> | client=<0|1> server=<state> disc=<0|1>
@@ -97,17 +99,30 @@ def stStr : SpecServer.St → String
   | .waitingForAuth => "WaitingForAuth" | .waitingForData _ => "WaitingForData"
   | .waitingForBegin => "WaitingForBegin" | .authenticated => "Authenticated" | .closed => "Closed"
 
-def cmdRun (toks : List String) : String :=
+def cmdRunWith (pref : List Bytes) (toks : List String) : String :=
   match toks with
   | unix :: rest =>
     match parseEnv rest with
     | some (env, toks) =>
       match parseChunks toks with
-      | some chunks =>
-        showProto (clientRun Txdbus.Gen.ClientAuth.preference (unix == "1") (fun _ => env) chunks)
+      | some chunks => showProto (clientRun pref (unix == "1") (fun _ => env) chunks)
       | none => "error bad-chunks"
     | none => "error bad-env"
   | _ => "error bad-run"
+
+def cmdRun (toks : List String) : String := cmdRunWith Txdbus.Gen.ClientAuth.preference toks
+
+/-- `runp <n> <mechanism hex>*n <rest as run>`: the same with an explicit preference list. -/
+def cmdRunP (toks : List String) : String :=
+  match toks with
+  | n :: rest =>
+    match n.toNat? with
+    | some k =>
+      match (rest.take k).mapM Driver.hexToBytes? with
+      | some pref => if rest.length < k then "error bad-pref" else cmdRunWith pref (rest.drop k)
+      | none => "error bad-pref"
+    | none => "error bad-pref"
+  | _ => "error bad-runp"
 
 def cmdHs (toks : List String) : String :=
   match toks with
@@ -132,6 +147,7 @@ def cmdHs (toks : List String) : String :=
 def step (_ : Unit) (line : String) : Unit × String :=
   match Driver.words line with
   | "run" :: toks => ((), cmdRun toks)
+  | "runp" :: toks => ((), cmdRunP toks)
   | "hs" :: toks => ((), cmdHs toks)
   | _ => ((), "error unknown-command")
 
